@@ -130,6 +130,10 @@ def obligations(tier, seed):
             narrow = {"f11": (1, 1), "a1": (-1, -1), "fa0": (-1, 0), "s00": (1, 2), "f00": (1, 2), "w1": (1, 2), "z1": (1, 1), "fs1": (1, 1),
                       "cap1": (1, 2), "cap0": (1, 2), "w2": (1, 1), "wa1": (-1, -1), "wa0": (-1, 1), "pa1": (-1, 2), "pa0": (-1, 2)}
             ob["params"] = [[n, max(lo, narrow[n][0]), min(hi, narrow[n][1])] if n in narrow else [n, lo, hi] for n, lo, hi in ob["params"]]
+        elif ob["name"].startswith("fac/"):
+            # (budget) the facility members with the pause step: one absence parameter each instead of the full ranges
+            narrow = {"a1": (-1, 0), "fa0": (-1, 0), "f11": (1, 2)}
+            ob["params"] = [[n, max(lo, narrow[n][0]), min(hi, narrow[n][1])] if n in narrow else [n, lo, hi] for n, lo, hi in ob["params"]]
         ob["harness"] = "memory"
         ob["name"] = "memory/" + ob["name"]
         ob["params"] = ob["params"] + [["k", 0, H if thorough else 7]]
